@@ -73,6 +73,8 @@ unsafe impl std::alloc::GlobalAlloc for Counting {
     unsafe fn dealloc(&self, p: *mut u8, l: std::alloc::Layout) {
         LIVE_BLOCKS.fetch_sub(1, std::sync::atomic::Ordering::Relaxed);
         LIVE_BYTES.fetch_sub(l.size() as isize, std::sync::atomic::Ordering::Relaxed);
+        // a freed block is overwritten, so that whoever still reads through a dangling pointer sees it (0xDD is neither NUL nor valid UTF-8 on its own)
+        std::ptr::write_bytes(p, 0xDD, l.size());
         std::alloc::System.dealloc(p, l)
     }
     unsafe fn realloc(&self, p: *mut u8, l: std::alloc::Layout, n: usize) -> *mut u8 {
@@ -218,6 +220,15 @@ unsafe fn ffi_cycle_once(cfg: &Config, desc: &Value, env: &mut Env, mism: &mut V
     // strings and suggestions outlive the context they came from
     for g in held.iter() {
         check_cstr(g, mism);
+    }
+    if b(desc, "suggestions_freed_first", false) {
+        // a string is its own object: it stays valid after the suggestion it was read from is freed, until riti_string_free takes it back
+        for sp in held_sugs.drain(..) {
+            riti_suggestion_free(sp);
+        }
+        for g in held.iter() {
+            check_cstr(g, mism);
+        }
     }
     for g in held {
         riti_string_free(g.0);
